@@ -18,11 +18,9 @@ def main():
     if '--tier' in a:
         i = a.index('--tier'); tier = a[i + 1]; del a[i:i + 2]
     alt, mut, ids = os.path.abspath(a[0]), os.path.abspath(a[1]), a[2:]
-    if not os.path.exists(os.path.join(alt, 'runtime')):
-        os.makedirs(alt, exist_ok=True)
-        r = sh('git -C /repo archive HEAD runtime include compiler schema | tar -x -C %s && cp /repo/include/fix8/f8config.h %s/include/fix8/' % (alt, alt))
-        if r.returncode:
-            print(r.stdout); return 2
+    r = sh("/verif/vp/sync_alt.sh %s" % alt)   # bring the copy up to /repo's working tree (unchanged files keep their timestamps)
+    if r.returncode:
+        print(r.stdout); return 2
     patch = os.path.join(mut, 'patch.diff')
     r = sh('patch -p1 --dry-run < %s' % patch, cwd=alt)
     if r.returncode:
